@@ -1,6 +1,7 @@
 package main
 
 import (
+	"golang.org/x/tools/go/ssa"
 	"fmt"
 	"go/ast"
 	"os"
@@ -137,5 +138,42 @@ func init() {
 	register("DBGV", "debug value receiver field address escapes", func(c *Ctx, r *Report) {
 		for _, s := range c.W.valueRecvFieldAddrEscapes() { fmt.Println(s) }
 		r.add("DBGV", "debug", "x", "x", nil, nil, "")
+	})
+}
+
+func init() {
+	register("DBGE", "debug: error chain from NewAnnotationHolder", func(c *Ctx, r *Report) {
+		sites, viols, sinks, filters := c.W.errChain("core/annotations.NewAnnotationHolder", 12)
+		for _, s := range filters {
+			fmt.Println("FILTER", s)
+		}
+		for _, s := range sites {
+			fmt.Println("SITE", s)
+		}
+		for _, s := range sinks {
+			fmt.Println("SINK", s)
+		}
+		for _, v := range viols {
+			fmt.Println("VIOL", v)
+		}
+	})
+}
+
+func init() {
+	register("DBGX", "debug: exits", func(c *Ctx, r *Report) {
+		fi := c.W.fn("(*core/visitors.ControllerVisitor).createControllerMetadata")
+		for _, ex := range exitsOf(fi.SSA) {
+			fmt.Println("EXIT", c.W.pos(retPos(ex)), ex.Kind, ex.Ret)
+			if ex.Ret != nil {
+				ev := ex.Ret.Results[len(ex.Ret.Results)-1]
+				if cl, ok := ev.(*ssa.Call); ok {
+					callee := cl.Call.StaticCallee()
+					fmt.Println("   call", calleeName(cl), callee != nil, callee != nil && len(callee.Blocks) > 0, len(cl.Call.Args))
+					for _, a := range cl.Call.Args {
+						fmt.Println("   arg", a, knownNonNil(a, ex.Block), provablyNonNil(a, ex.Block))
+					}
+				}
+			}
+		}
 	})
 }
